@@ -104,7 +104,8 @@ fn main() {
             Ok(Err(e)) => println!("{name}: rejected with {e} (fine)"),
             Ok(Ok((wb, we))) => {
                 let ok = wb == b && we == want_end;
-                println!("{name}: written pair ({wb:#x}, {we:#x}), the entry means ({b:#x}, {want_end:#x}): {}", if ok { "ok" } else { "WRONG RESULT" });
+                let h = |v: i128| if v < 0 { format!("-{:#x}", -v) } else { format!("{v:#x}") };
+                println!("{name}: written pair ({}, {}), the entry means ({}, {}): {}", h(wb), h(we), h(b), h(want_end), if ok { "ok" } else { "WRONG RESULT" });
                 if !ok {
                     bad += 1;
                 }
